@@ -11,7 +11,7 @@ every edit) followed by `commit_inner` (updates, packed-refs merge, deletions, d
 Abstract side: GixModel.Spec.C16 — a map `Name → Option Target` with the all-or-nothing
 compare-and-swap `Spec.apply`. `abs` looks at a store the way `try_find` does.
 -/
-import GixModel.Lemmas.C16Git
+import GixModel.Lemmas.C16Leak
 import GixModel.Model.C16
 
 namespace GixModel.Props.C16
@@ -76,6 +76,37 @@ theorem no_lock_leak (env : Env) (S : Store) (t : Txn) (hS : StoreOk S) (hL : No
   | err e S' => rw [h] at this; exact this.1
   | panic S' => rw [h] at this; exact this.1
   | hang => rw [h] at this; exact this
+
+/-- The same with lock files of OTHER parties around — any `<ref>.lock` files, `packed-refs.lock`
+held or not, also locks on the very refs the transaction edits: a transaction that succeeds leaves
+exactly the lock files that were there before (its own are all released, foreign ones untouched);
+a transaction that fails — on a held lock, an expectation, anything — or hits the API contract
+violation leaves the store on disk literally as it was. -/
+theorem no_lock_leak_foreign (env : Env) (S : Store) (t : Txn) (hS : StoreOk S) :
+    match run env S t with
+    | .ok _ S' => S'.locks = S.locks ∧ S'.packedLock = S.packedLock
+    | .err _ S' => S' = S
+    | .panic S' => S' = S
+    | .hang => False :=
+  no_lock_leak_any env S t hS
+
+-- non-vacuity: HEAD -> a, the lock of `a` is held by someone else; the dereferencing update fails
+-- and the foreign lock is the only lock left; an update of another ref succeeds next to it
+example :
+    let S : Store := { S0 with locks := [[114, 101, 102, 115, 47, 97]] }
+    let t : Txn := { edits := [{ change := .update .andReference .any (.object 1), name := [72, 69, 65, 68], deref := true }],
+                     mode := .deletionsOnly }
+    (match run { known := fun _ => true } S t with
+      | .err (.lockAcquire n) S' => decide (n = [72, 69, 65, 68] ∧ S' = S)
+      | _ => false) = true := by decide
+
+example :
+    let S : Store := { S0 with locks := [[114, 101, 102, 115, 47, 97]] }
+    let t : Txn := { edits := [{ change := .update .andReference .any (.object 1), name := [114, 101, 102, 115, 47, 98], deref := false }],
+                     mode := .deletionsOnly }
+    (match run { known := fun _ => true } S t with
+      | .ok _ S' => decide (S'.locks = S.locks ∧ S'.find [114, 101, 102, 115, 47, 98] = some (.object 1))
+      | _ => false) = true := by decide
 
 /-- The merge loop of `packed::Transaction::commit`: a sorted packed buffer merged with edits of
 distinct names (sorted first, as the code does) is sorted again — strictly, hence without
